@@ -3,10 +3,11 @@ scenarios over a process pool with work splitting, merges the statistics and tur
 violations into Findings with replay data."""
 import importlib
 import multiprocessing
+import re
 import time
 
 from .common import Finding, Report
-from .sched import Stats, explore, replay as _replay
+from .sched import Exec, Stats, explore, replay as _replay
 
 BUDGET = 400     # executions per work item before the remaining stack is handed back
 
@@ -29,14 +30,67 @@ def _work(item):
     return key, bound, st, left
 
 
+SHARED = "instances-share-state"
+_ADDR = re.compile(r" at 0x[0-9a-f]+")
+
+
+def _observation(x):
+    return [_ADDR.sub("", repr(t)) for t in x.scen.trace] + [_ADDR.sub("", repr(e)) for e in x.scen.log]
+
+
+def twice(modname, key):
+    """Independence differential: the default schedule of a scenario run twice in a row in one process, each
+    time on freshly built pipelines (and a fresh virtual loop and clock), must give the same observations.
+    Returns None or (detail, info): state kept outside the instances (class or module level) is the only way
+    the second run can differ.  The per-property oracles are applied to both runs as usual."""
+    mod = importlib.import_module(modname)
+    a = Exec(mod.factory(key)).run()
+    b = Exec(mod.factory(key)).run()
+    oa, ob = _observation(a), _observation(b)
+    sig_b = sorted(set(v.sig for v in b.violations) - set(v.sig for v in a.violations))
+    if oa == ob and not sig_b:
+        return None
+    i = next((i for i, (p, q) in enumerate(zip(oa, ob)) if p != q), min(len(oa), len(ob)))
+    info = dict(first_difference=i, first_run=oa[i:i + 3], second_run=ob[i:i + 3],
+                new_violations_in_second_run=[list(map(str, s)) for s in sig_b][:3])
+    return (a.scen.site(), info)
+
+
+def _twice_job(item):
+    modname, key = item
+    return key, twice(modname, key)
+
+
+def _independence(ctx, modname, keys):
+    """every scenario key in a process that has run nothing else (one forked child per key)"""
+    out = {}
+    keys = list(dict.fromkeys(keys))
+    mp = multiprocessing.get_context("fork")
+    with mp.Pool(processes=max(1, ctx.jobs), maxtasksperchild=1) as pool:
+        for key, res in pool.imap_unordered(_twice_job, [(modname, k) for k in keys], 1):
+            if res is not None:
+                out[key] = res
+    return out
+
+
 def run_scenarios(ctx, modname, jobs_spec, cap=None):
     """jobs_spec: list of (key, bound).  Returns dict key -> Stats.
     cap: optional max executions per scenario (sets capped flag)."""
     results = {}
-    items = [(modname, key, bound, [((), ())], BUDGET) for key, bound in jobs_spec]
-    ctx.rng.shuffle(items)
     for key, bound in jobs_spec:
         results[key] = Stats()
+    # phase 0: pipelines built one after the other in one process do not influence each other.  A scenario that
+    # fails this is reported and not explored (its schedule tree is not a tree: replayed prefixes diverge).
+    shared = _independence(ctx, modname, [k for k, _ in jobs_spec])
+    for key, (site, info) in shared.items():
+        st = results[key]
+        st.executions += 2
+        sig = (SHARED, site, "")
+        st.viol[sig] = (["<default schedule, run twice in one process>"], repr(info)[:600], [])
+        st.viol_count[sig] += 1
+    jobs_spec = [(k, b) for k, b in jobs_spec if k not in shared]
+    items = [(modname, key, bound, [((), ())], BUDGET) for key, bound in jobs_spec]
+    ctx.rng.shuffle(items)
     if ctx.jobs <= 1:
         queue = list(items)
         while queue:
@@ -94,6 +148,16 @@ def report_from(ctx, modname, results, bounds, rule, assumptions=(), confirm=Tru
         per[_kstr(key)] = dict(executions=st.executions, states=len(st.states), outcomes=len(st.outcomes),
                                transitions=st.transitions, violating_signatures=len(st.viol), capped=st.capped)
         for sig, (trace, info, choices) in st.viol.items():
+            if sig[0] == SHARED:
+                # confirmed in two more fresh processes
+                again = [_independence(ctx, modname, [key]).get(key) for _ in range(2)]
+                if any(r is None for r in again):
+                    from .vloop import HarnessError
+                    raise HarnessError("%r of %r not reproducible in a fresh process" % (sig, key))
+                rep.add(Finding(sig[0], sig[1], sig[2],
+                                dict(engine="sched-twice", module=modname, scenario=_jsonkey(key), observed=info),
+                                "%s: default schedule run twice in one process :: %s" % (_kstr(key), info), count=1))
+                continue
             if confirm:
                 a = _replay(mod.factory(key), choices)
                 b = _replay(mod.factory(key), choices)
@@ -135,6 +199,19 @@ def replay_finding(modname, rep):
     """re-execute a replay file produced by report_from; returns the violations seen"""
     mod = importlib.import_module(modname)
     key = rep["scenario"]
-    key = tuple(key) if isinstance(key, list) else key
+    key = tuple(_tuplify(k) for k in key) if isinstance(key, list) else key
+    if rep.get("engine") == "sched-twice":
+        class _R:
+            violations = []
+        res = twice(modname, key)
+        r = _R()
+        if res is not None:
+            from .sched import Violation
+            r.violations = [Violation(SHARED, res[0], "", res[1])]
+        return r
     x = _replay(mod.factory(key), rep["choices"])
     return x
+
+
+def _tuplify(k):
+    return tuple(_tuplify(x) for x in k) if isinstance(k, list) else k
